@@ -266,6 +266,17 @@ class Ref:
         return out
 
     def _binop(self, op, a, b, C):
+        if isinstance(op, ast.Mod):
+            # E-Op with the exact value x - floor(x / y) * y (the sign of the divisor); concrete operands only
+            from fractions import Fraction
+            x, y = self.num['rational'](self._numv(a)), self.num['rational'](self._numv(b))
+            if y == 0:
+                raise Unsupported('% by zero')
+            q = x / y
+            v = x - Fraction(q.numerator // q.denominator) * y
+            if v == 0:
+                raise Unsupported('zero result of % (sign of zero)')
+            return self.prim['round'](v if v.denominator & (v.denominator - 1) else self.num['from_rational'](v), ctx=C)
         name = {ast.Add: 'add', ast.Sub: 'sub', ast.Mult: 'mul'}.get(type(op))
         if name is None:
             raise Unsupported('operator %s' % type(op).__name__)
